@@ -116,8 +116,16 @@ func NewHTTPStoreCache(key []byte, store store.Store) *httpCache {
 
 // Get get http cache
 func (hc *httpCache) Get() (status Status, response *HTTPResponse) {
+	status, response, _ = hc.GetWithAge()
+	return
+}
+
+// GetWithAge get http cache and the age of the response,
+// the age is calculated by the same clock reading as the lookup (under the same lock),
+// so that it never exceeds the ttl and always belongs to the returned response
+func (hc *httpCache) GetWithAge() (status Status, response *HTTPResponse, age int) {
 	hc.mu.Lock()
-	status, done, response := hc.get()
+	status, done, response, age := hc.get()
 	hc.mu.Unlock()
 	// 如果done不为空，表示需要等待确认当前请求状态
 	if done != nil {
@@ -218,7 +226,7 @@ func (hc *httpCache) saveToStore() (err error) {
 	return hc.store.Set(hc.key, data, ttl)
 }
 
-func (hc *httpCache) get() (status Status, done chan waitResult, data *HTTPResponse) {
+func (hc *httpCache) get() (status Status, done chan waitResult, data *HTTPResponse, age int) {
 	now := nowUnix()
 	// 如果首次创建并且设置store
 	if hc.status == StatusUnknown {
@@ -259,6 +267,7 @@ func (hc *httpCache) get() (status Status, done chan waitResult, data *HTTPRespo
 	// 当其它goroutine获取锁之后，有可能刚好重置数据
 	if status == StatusHit {
 		data = hc.response
+		age = int(now - hc.createdAt)
 	}
 	return
 }
